@@ -39,12 +39,16 @@ func readStreamedBlock(r io.Reader, scale uint8) (block *labels.Block, compresse
 		return
 	}
 	bcoord := dvid.ChunkPoint3d{bx, by, bz}.ToIZYXString()
-	compressed = make([]byte, numBytes)
-	n, err = io.ReadFull(r, compressed)
-	if n != numBytes || err != nil {
-		err = fmt.Errorf("error reading %d bytes for block %s: %d actually read (%v)", numBytes, bcoord, n, err)
+	// The length is declared by the client: grow the buffer as bytes actually arrive
+	// instead of allocating up to 4 GB for a 16-byte request.
+	var buf bytes.Buffer
+	var nread int64
+	nread, err = io.CopyN(&buf, r, int64(numBytes))
+	if nread != int64(numBytes) || err != nil {
+		err = fmt.Errorf("error reading %d bytes for block %s: %d actually read (%v)", numBytes, bcoord, nread, err)
 		return
 	}
+	compressed = buf.Bytes()
 
 	gzipIn := bytes.NewBuffer(compressed)
 	var zr *gzip.Reader
